@@ -805,8 +805,10 @@ def gen_args(pkg, name, g, rng, vol):
             S = [s for s in int_strings(rng, nr)]
             keep = []
             for s in S:
-                m = re.fullmatch(rb"[-+]?(\d+)", s)
-                if m and int(m.group(1)) >= 1 << 31:        # would depend on the size of int
+                # Atoi depends on the size of int as soon as the digits read so far exceed 32 bits (range error before a
+                # later syntax error is seen, clamped value): keep only inputs whose longest digit run stays below 2^31
+                runs = re.findall(rb"\d+", s)
+                if any(int(r) >= 1 << 31 for r in runs) or sum(len(r) for r in runs) > 9 and b"_" in s:
                     continue
                 keep.append((s,))
             return keep
